@@ -12,7 +12,8 @@ from .common import SPEC, log, scratch, Timer
 
 PARAMS = {"quick": dict(max_steps=3, all_paths=False), "thorough": dict(max_steps=4, all_paths=True)}
 
-ROOT = 'import "imp.pg";\nS: A "x" | "y" T | E;\nT: A "z" | C;\nA: "d";\nC: "d" "e";\nE: E "+" E | E "-" E | imp.N%s;\n'
+# (Opt "a" | "a" "b": a shift / EMPTY-reduction conflict, so that prefer_shifts and prefer_shifts_over_empty give different tables)
+ROOT = 'import "imp.pg";\nS: A "x" | "y" T | E | Opt "a" | "a" "b";\nOpt: "q" | EMPTY;\nT: A "z" | C;\nA: "d";\nC: "d" "e";\nE: E "+" E | E "-" E | imp.N%s;\n'
 IMP = 'import "leaf.pg";\nN: "n" | leaf.M%s;\n'
 LEAF = 'M: "m"%s;\n'
 OPTS = {
@@ -20,6 +21,7 @@ OPTS = {
     "glr": ("glr", {}),
     "slr": ("lr", {"tables": "SLR"}),
     "cli": ("lr", {"prefer_shifts": False, "prefer_shifts_over_empty": False}),  # what pglr compile writes (only ever a writer)
+    "clips": ("lr", {"prefer_shifts": True, "prefer_shifts_over_empty": False}),                                    # what pglr --prefer-shifts compile writes (only ever a writer)
 }
 
 
@@ -120,10 +122,11 @@ def fresh_sig(real, o, vers):
                     p = (real.GLRParser if kind == "glr" else real.Parser)(g, **{k: (real.TABLES[v] if k == "tables" else v) for k, v in kw.items()})
                     sig = json.dumps(table_to_serializable(p.table), sort_keys=True)
                 except (real.parglare.exceptions.SRConflicts, real.parglare.exceptions.RRConflicts):
-                    # the unresolved 'cli' table does not pass an LR parser's conflict check; serialise it directly
+                    # the unresolved 'cli' / 'clips' tables do not pass an LR parser's conflict check; serialise them directly
                     from parglare.tables import create_table
 
-                    sig = json.dumps(table_to_serializable(create_table(g, prefer_shifts=False, prefer_shifts_over_empty=False)), sort_keys=True)
+                    sig = json.dumps(table_to_serializable(create_table(g, prefer_shifts=kw.get("prefer_shifts", False),
+                                                                        prefer_shifts_over_empty=kw.get("prefer_shifts_over_empty", False))), sort_keys=True)
             _fresh_cache[key] = sig
         finally:
             shutil.rmtree(c, ignore_errors=True)
@@ -198,7 +201,7 @@ def replay(job):
                 from parglare import cli
 
                 with real.quiet():
-                    cli.compile_get_grammar_table(os.path.join(d, "root.pg"), False, False, False, False)
+                    cli.compile_get_grammar_table(os.path.join(d, "root.pg"), False, False, arg == "clips", False)
                 os.utime(pgc, (clock, clock))
                 reply = "compile"
             elif act == "DoEdit":
